@@ -220,6 +220,10 @@ def run_impl(project, keep=False, extra_env=None):
         local = args.get("local")
         info = os.path.join(root, ".info-export.json")
         more = ("--info-export", info) if args.get("info_export") else ()
+        if args.get("_before") is not None and local is None:
+            # a sibling command line first, in the same build directory; only what it leaves behind matters
+            run_laze(d, {k: v for k, v in args["_before"].items() if not k.startswith("_")}, extra_env=extra_env)
+            read_dump(d)
         if local is not None:
             r = run_laze(d, args, extra_env=extra_env, global_mode=False, cwd=os.path.join(d, local), more=more)
         else:
